@@ -4,7 +4,7 @@ macro_rules! width_list {
     () => {
         dispatch_widths!(dispatch, call, Op;
             0, 1, 2, 3, 4, 5, 6, 7, 8, 9, 10, 11, 12, 13, 14, 15, 16,
-    60, 63, 64, 65, 120, 127, 128, 129, 191, 192, 193, 250, 255, 256, 257, 320, 384, 448, 511, 512, 513, 1024, 1088, 1150, 1216, 1280, 1344, 1408, 1471, 1536, 4096);
+    60, 63, 64, 65, 72, 120, 127, 128, 129, 191, 192, 193, 200, 250, 255, 256, 257, 320, 384, 448, 511, 512, 513, 1024, 1088, 1150, 1216, 1280, 1344, 1408, 1471, 1536, 4096);
     };
 }
 const SWEEP: bool = false;
